@@ -69,7 +69,8 @@ def check_case(acc, kind, arch, params, tag=None, st=None, history=None):
     L = lib()
     st = build_state(kind, arch, params) if st is None else st
     n = arch[0]
-    space = call(st.generate_hilbert_space)
+    from ..common import space_of
+    space = space_of(st, n) if history is not None else call(st.generate_hilbert_space)
     lam = split_binary(params[0], arch)
     la = R.rbm_logp(*lam)
     logZ = R.lse(la, 0)
@@ -212,7 +213,7 @@ def run_stateful(acc, item):
     from ..common import update_params, UPDATE_STYLES, pattern, net_sizes
     kind, arch = item["kind"], item["arch"]
     sizes = net_sizes(kind, arch)
-    seq = [[pattern(n, q, r) for r, n in enumerate(sizes)] for q in range(5)]
+    seq = [[pattern(n, q, r) for r, n in enumerate(sizes)] for q in range(7)]
     st = build_state(kind, arch, seq[0])
     check_case(acc, kind, arch, seq[0], ("stateful", 0), st=st, history=[])
     hist = []
